@@ -42,6 +42,8 @@ pub struct PtCfg {
     pub late_mount: bool,
     /// Config::enable_mntid (inode identity includes the mount id)
     pub mntid: bool,
+    /// with `dax`: Config.dax_file_size = Some(0) ("every file") instead of Some(8)
+    pub dax_zero: bool,
 }
 
 impl PtCfg {
@@ -62,6 +64,7 @@ impl PtCfg {
             layer_cfg_off: false,
             late_mount: false,
             mntid: false,
+            dax_zero: false,
         }
     }
     pub fn label(&self) -> String {
@@ -82,7 +85,7 @@ impl PtCfg {
             if self.layer_cfg_off { ",switches-in-vfs-only" } else { "" },
             if self.late_mount { ",mounted-after-init" } else { "" },
             if self.mntid { ",mntid" } else { "" },
-        )
+        ) + if self.dax_zero { ",dax-all-files" } else { "" }
     }
     /// A list in which every pair of switch values occurs (quick tier).
     pub fn pairwise() -> Vec<PtCfg> {
@@ -116,6 +119,7 @@ impl PtCfg {
                     layer_cfg_off: false,
                     late_mount: false,
                     mntid: bits & 4 != 0 && bits & 16 != 0,
+                    dax_zero: false,
                     cache,
                     seal_size: false,
                 };
@@ -370,7 +374,7 @@ impl PtWorld {
             xattr: cfg.xattr,
             seal_size: cfg.seal_size,
             killpriv_v2: cfg.killpriv_v2 && !(cfg.behind_vfs && cfg.layer_cfg_off),
-            dax_file_size: if cfg.dax { Some(8) } else { None },
+            dax_file_size: if cfg.dax { Some(if cfg.dax_zero { 0 } else { 8 }) } else { None },
             enable_mntid: cfg.mntid,
             ..Config::default()
         };
